@@ -140,6 +140,8 @@ def _parse_line(line, res, steps, inline, cur):
         res["choices"] = t[1:] if len(t) > 1 and t[1] else []
     elif tag == "M":
         res["M"] = parse_kv(t[1:])
+    elif tag == "K":
+        res["sites"] = [x for x in t[1:] if x]
     elif tag == "H":
         res["header"] = parse_kv(t[1:])
     elif tag == "T":
@@ -173,6 +175,7 @@ def run_case(exe, case, scratch, timeout=15):
     if rc != 0 or res["M"] is None:
         res["crash"] = "rc=%s %s" % (rc, err.decode("utf-8", "replace")[-1200:])
     res["case"] = case
+    res["exe"] = os.path.basename(exe)
     return res
 
 
@@ -457,6 +460,67 @@ def offenders(res):
     if rc["peak"] != peak or rc["connects"] != connects:
         out.append(("*", "harness-bug", "monitor line and event lines disagree: %s vs %s" % (m, rc)))
     return out
+
+
+# ---------------------------------------------------------------------------- call sites
+WRAP_KIND = {"__wrap_pthread_cond_wait": "wait", "__wrap_pthread_cond_signal": "signal",
+             "__wrap_pthread_cond_broadcast": "broadcast", "__wrap_pthread_create": "create"}
+
+
+def static_sites(exe):
+    """The call sites of pthread_cond_wait / _signal / _broadcast and pthread_create that EXIST in the code compiled
+    from dsh.c (read off the harness executable: disassembly + debug info), as {"kind:hexoffset": "function file:line"}
+    with the same offsets the harness prints on its K line.  None if the tools are missing."""
+    import re
+    try:
+        nm = subprocess.run(["nm", exe], stdout=subprocess.PIPE, stderr=subprocess.DEVNULL, timeout=60).stdout.decode()
+        base = next(int(l.split()[0], 16) for l in nm.splitlines() if l.endswith(" __executable_start"))
+        dis = subprocess.run(["objdump", "-d", "--no-show-raw-insn", exe], stdout=subprocess.PIPE,
+                             stderr=subprocess.DEVNULL, timeout=120).stdout.decode("utf-8", "replace").splitlines()
+    except (OSError, StopIteration, subprocess.TimeoutExpired):
+        return None
+    found = []
+    for i, l in enumerate(dis):
+        m = re.match(r"^\s*([0-9a-f]+):\s+call\w*\s+[0-9a-f]+ <(__wrap_pthread_\w+)>", l)
+        if not m or m.group(2) not in WRAP_KIND:
+            continue
+        nxt = next((re.match(r"^\s*([0-9a-f]+):", x) for x in dis[i + 1:i + 4] if re.match(r"^\s*[0-9a-f]+:", x)), None)
+        if nxt:
+            found.append((WRAP_KIND[m.group(2)], int(m.group(1), 16), int(nxt.group(1), 16)))
+    if not found:
+        return {}
+    try:
+        a2l = subprocess.run(["addr2line", "-f", "-e", exe] + ["%x" % c for _, c, _ in found], stdout=subprocess.PIPE,
+                             stderr=subprocess.DEVNULL, timeout=60).stdout.decode().splitlines()
+    except (OSError, subprocess.TimeoutExpired):
+        return None
+    out = {}
+    for j, (kind, call, ret) in enumerate(found):
+        fn = a2l[2 * j] if 2 * j < len(a2l) else "?"
+        where = a2l[2 * j + 1] if 2 * j + 1 < len(a2l) else "?"
+        if "dsh.c" not in where:
+            continue                  # the harness's own calls, other translation units
+        out["%s:%x" % (kind, ret - base)] = "%s %s" % (fn, os.path.basename(where.split(" ")[0]))
+    return out
+
+
+def site_report(ctx, exe, seen, what):
+    """seen = set of "kind:offset" tokens collected from the K lines of the runs made with `exe`.  A call site that
+    exists in dsh.c and that NO run reached is a hole in the correspondence (a new / moved path nobody exercises):
+    reported as a broken tie.  -> table for the evidence"""
+    st = static_sites(exe)
+    if st is None:
+        return {"skipped": "nm / objdump / addr2line not available"}
+    missing = sorted(v for k, v in st.items() if k not in seen)
+    table = {v: ("reached" if k in seen else "NEVER REACHED") for k, v in sorted(st.items(), key=lambda kv: kv[1])}
+    if not st:
+        ctx.disagreement("call sites of dsh.c", "no call site of pthread_cond_wait/signal/broadcast/pthread_create found "
+                         "in the code compiled from dsh.c (%s)" % what)
+    elif missing:
+        ctx.disagreement("call sites of dsh.c", "%d of %d call sites of pthread_cond_wait/_signal/_broadcast/pthread_create "
+                         "in dsh.c were never reached by any run of %s: %s -- the trace correspondence says nothing "
+                         "about the code path they are on" % (len(missing), len(st), what, "; ".join(missing)))
+    return table
 
 
 # ---------------------------------------------------------------------------- variant detection
